@@ -17,6 +17,7 @@ structure HalfRec where
   kind : String
   travels : String
   prequeue : Bool
+  prefail : String := "-"
 
 structure Xfer where
   label : Nat
@@ -37,6 +38,7 @@ structure CaseSt where
   sendFailed : Bool := false    -- a send of the value failed: the item was handed back, its halves stay where they were (and connected)
   xfers : List Xfer := []
   drains : List (Nat × List Nat × String) := []
+  presends : List (String × Nat × String × Nat) := []   -- mode, halves, result, recovered
   events : List String := []
   skipped : Bool := false
 
@@ -85,11 +87,20 @@ def finishCase (c : CaseSt) : IO Unit := do
     if e.startsWith "hang" || e.startsWith "panic" || e.endsWith "panicked" then fails := fails ++ [e]
     if e.startsWith "stray" then fails := fails ++ [s!"a received half carries an unknown label ({e})"]
   if c.scenario == "normal" && !c.valueOk && !c.halves.any (·.travels == "both") then
-    fails := fails ++ ["the value could not be transferred although nothing was wrong: " ++ " ".intercalate (c.events.filter (·.startsWith "value"))]
+    let why := if c.halves.any (·.prefail != "-") then "RETRY the value with the other half of a channel whose first send failed could not be transferred: " else "the value could not be transferred although nothing was wrong: "
+    fails := fails ++ [why ++ " ".intercalate (c.events.filter (·.startsWith "value"))]
   if c.scenario == "txports" && !c.sendFailed && c.halves.length > 0 then
     diffs := diffs ++ ["sender endpoint short of ports but the send did not fail"]
+  -- retry with the other half: the preliminary send must fail after serialization and hand every half back
+  -- (model: `endSend false` returns the interlock to "local"), after which the other half takes the branch the
+  -- model gives for it
+  for (mode, n, res, rec) in c.presends do
+    let want := if mode == "ports" then "ser" else "oversize"
+    if res != want then diffs := diffs ++ [s!"preliminary send ({mode}) ended with '{res}', expected '{want}'"]
+    if rec != n then fails := fails ++ [s!"preliminary send ({mode}) failed but handed back {rec} of {n} halves"]
   let mut okLabels := 0
   let mut errLabels := 0
+  let mut retried := 0
   for h in c.halves do
     match c.xfers.find? (·.label == h.label) with
     | none => if connectable then fails := fails ++ [s!"label {h.label}: no transfer recorded"]
@@ -99,7 +110,18 @@ def finishCase (c : CaseSt) : IO Unit := do
       for v in x.got do
         if !(want.contains v) then
           fails := fails ++ [s!"label {h.label} ({h.kind}, {h.travels} travels): value {v} of another channel came out of it (cross-wired)"]
-      if (h.kind == "bin" || h.kind == "lr") && x.txAt == "origin" && x.rxAt == "origin" then
+      let retryBranch : Branch :=
+        let il0 : Interlock := {}
+        let isLr := h.kind == "lr"
+        if h.travels == "tx" then (serializeSender true isLr ((serializeReceiver true isLr il0).2.endSend false)).1
+        else (serializeReceiver true isLr ((serializeSender true isLr il0).2.endSend false)).1
+      if h.prefail != "-" && c.scenario == "normal" && retryBranch == .localRemote && !c.sendFailed && c.valueOk then
+        -- the half went out after a failed send of its counterpart: ordinary local-remote case expected
+        retried := retried + 1
+        if x.got == want && x.sent == "ok" then okLabels := okLabels + 1
+        else
+          fails := fails ++ [s!"RETRY label {h.label} ({h.kind}, {h.travels} travels after a failed send ({h.prefail}) of the other half had handed it back): the received half is not wired to the handed-back counterpart (sent={x.sent} got={showL x.got} recv={x.recv})"]
+      else if (h.kind == "bin" || h.kind == "lr") && x.txAt == "origin" && x.rxAt == "origin" then
         -- both halves of a bin / lr channel at the same endpoint: such a channel never connects (by design)
         pure ()
       else if x.sent == "hang" || x.recv == "hang" then
@@ -151,7 +173,7 @@ def finishCase (c : CaseSt) : IO Unit := do
     if e == "hang" then fails := fails ++ [s!"label {l}: receiver neither ends nor fails after its sender is gone (hang)"]
   for m in fails do IO.println s!"FAIL {c.name} c05 {m}"
   for m in diffs do IO.println s!"DIFF {c.name} {m}"
-  IO.println s!"END {c.name} hops={c.hops} scenario={c.scenario} n={c.halves.length} c05={if fails.isEmpty then "ok" else "fail"} replay={if diffs.isEmpty then "ok" else "diff"} connected={okLabels} unconnectable={errLabels} valueok={if c.valueOk then 1 else 0}"
+  IO.println s!"END {c.name} hops={c.hops} scenario={c.scenario} n={c.halves.length} c05={if fails.isEmpty then "ok" else "fail"} replay={if diffs.isEmpty then "ok" else "diff"} connected={okLabels} unconnectable={errLabels} retried={retried} valueok={if c.valueOk then 1 else 0}"
 
 def stepLine (a : DAcc) (_n : Nat) (line : String) : IO DAcc := do
   let l := line.trimAscii.toString
@@ -165,7 +187,9 @@ def stepLine (a : DAcc) (_n : Nat) (line : String) : IO DAcc := do
     return { cur := { name := name, active := true, hops := getNat m "hops", scenario := getKV m "scenario" }, cases := a.cases + 1 }
   | "half" :: lab :: rest =>
     let m := kvs rest
-    let h : HalfRec := { label := lab.toNat?.getD 0, kind := getKV m "kind", travels := getKV m "travels", prequeue := getKV m "prequeue" == "1" }
+    let pf := getKV m "prefail"
+    let h : HalfRec := { label := lab.toNat?.getD 0, kind := getKV m "kind", travels := getKV m "travels", prequeue := getKV m "prequeue" == "1",
+                         prefail := if pf == "" then "-" else pf }
     return { a with cur := { c with halves := c.halves ++ [h] } }
   | "valuesend" :: rest =>
     let m := kvs rest
@@ -182,6 +206,9 @@ def stepLine (a : DAcc) (_n : Nat) (line : String) : IO DAcc := do
     let x : Xfer := { label := lab.toNat?.getD 0, txAt := (t.splitOn "@").getLastD "", rxAt := (r.splitOn "@").getLastD "",
                       sent := getKV m "sent", got := parseList (getKV m "got"), recv := getKV m "recv" }
     return { a with cur := { c with xfers := c.xfers ++ [x] } }
+  | "presend" :: rest =>
+    let m := kvs rest
+    return { a with cur := { c with presends := c.presends ++ [(getKV m "mode", getNat m "halves", getKV m "res", getNat m "recovered")] } }
   | "drain" :: lab :: rest =>
     let m := kvs rest
     return { a with cur := { c with drains := c.drains ++ [(lab.toNat?.getD 0, parseList (getKV m "extra"), getKV m "end")] } }
